@@ -18,8 +18,9 @@ WS_UNICODE = [c for c in WS_ALL if ord(c) >= 128]
 # invisible, but NOT whitespace for str.strip(): at the edge of a string they are part of the value
 ZERO_WIDTH = ["\u200b", "\ufeff"]
 P_EDGE = 0.12        # a generated string gets such a character at an edge / inside
-P_LONG = 0.05        # a generated list has 10–12 entries (two-digit indices in spread column names)
+P_LONG = 0.03        # a generated list has 10–12 entries (two-digit indices in spread column names)
 LONG = [10, 10, 11, 12]
+_ZW, _EXOTIC = set(ZERO_WIDTH), set(WS_ALL) - {" ", "\n"}
 STRATA = collections.Counter()   # strata of the value generator (main process); folded into ck.count by the checks
 INTS = [0, 1, -1, 10, -7, 42, 2**40, 123456789012345678901, -(10**20)]
 FLOATS = [0.0, 1.5, -2.25, 1e-05, 1e16, 0.1, 3.0, float("inf"), 2.5e-300]
@@ -127,9 +128,9 @@ def gen_str(rng, names, clean, nonblank=False):
         STRATA["strings.whitespace-at-edge(outside the round-trip domain)"] += 1
         if s.strip(" \t\n\r\x0b\x0c") != s.strip():
             STRATA["strings.non-ascii-whitespace-at-edge(outside the round-trip domain)"] += 1
-    elif s and (s[0] in ZERO_WIDTH or s[-1] in ZERO_WIDTH):
+    elif s and (s[0] in _ZW or s[-1] in _ZW):
         STRATA["strings.zero-width-at-edge(kept by strip)"] += 1
-    if any(c in WS_UNICODE or (c in WS_ASCII and c not in " \n") for c in s.strip()):
+    if not _EXOTIC.isdisjoint(s.strip()):
         STRATA["strings.exotic-whitespace-inside"] += 1
     return s
 
